@@ -183,8 +183,21 @@ func leafText(doc []byte) (string, bool) {
 	return "ok " + encB(buf.Bytes()), true
 }
 
+// decoy is rendered by a second BuildTree call while the first document is still held: a caller
+// (Get with several paths, the validation of several targets) keeps the returned bytes, so they
+// must not change when BuildTree is called again.
+var decoy = ntv{Type: 1, Bytes: []byte("~~~~ decoy document rendered while the previous one is still in use ~~~~ 0123456789 0123456789 0123456789")}
+
 func jsonAnswer(a *api, t ntv, rfc bool, hideFloat bool) string {
 	doc, err := a.tree(t, rfc)
+	if err == nil {
+		snap := append([]byte{}, doc...)
+		_, _ = a.tree(decoy, rfc)
+		_, _ = a.tree(ntv{Type: 4, Bytes: []byte{1}}, rfc)
+		if !bytes.Equal(snap, doc) {
+			return "err document-changed-by-a-later-BuildTree:was=" + encB(snap) + ":now=" + encB(doc)
+		}
+	}
 	if err != nil {
 		if floatText(t, rfc) && hideFloat {
 			return "float" // e.g. json: unsupported value: +Inf
@@ -226,6 +239,22 @@ func exec(line string) (out string) {
 			return "err v2-v3-differ"
 		}
 		return "ok " + encB([]byte(str))
+	}
+	if op == "value.e2em" {
+		// value.e2em <gval> <opts> <gval> <opts> …: one Set of several leaves, read back together
+		if len(args) < 2 || len(args)%2 != 0 {
+			return "bad-op"
+		}
+		var items []leafItem
+		for i := 0; i < len(args); i += 2 {
+			g, ok1 := decGVal(args[i])
+			o, ok2 := decOpts(args[i+1])
+			if !ok1 || !ok2 || o.nilPath {
+				return "bad-op"
+			}
+			items = append(items, leafItem{g: g, o: o})
+		}
+		return e2em(items)
 	}
 	if op == "value.e2e" {
 		if len(args) != 2 {
